@@ -672,12 +672,17 @@ struct G
             os << "int " << n << "(int " << a << ", int " << b << ") {\n";
             os << "  int r = " << t << ";\n";
             switch (rng.below(4)) {
-            case 0: os << "  if (" << a << " > " << b << ") return " << a << " + r;\n  return " << b << " + " << t2 << ";\n"; break;
+            case 0:
+                os << "  if (" << a << " > " << b << ") return " << a << " + r;\n  return " << b << " + " << t2 << ";\n";
+                d.shape = "{i(r)r}";
+                break;
             case 1:
                 os << "  while (r > " << a << ") { r = r - 1; if (r == " << b << ") return r; }\n  return r + " << t2 << ";\n";
+                d.shape = "{w({ei(r)})r}";
                 break;
             case 2:
                 os << "  for (r = 0; r < 3; r++) { " << a << " += r; }\n  return " << a << " * " << b << " + " << t2 << ";\n";
+                d.shape = "{f({e})r}";
                 break;
             default:
                 if (!sc.arrays.empty() && cfg.quantifiers) {
@@ -686,8 +691,11 @@ struct G
                         q = "qq";
                     os << "  for (" << q << " : int[0,3]) { r += " << sc.arrays[0] << "[" << q << "]; }\n  return r + " << a
                        << " + " << t2 << ";\n";
-                } else
+                    d.shape = "{q({e})r}";
+                } else {
                     os << "  do { r--; } while (r > " << a << ");\n  return r + " << t2 << ";\n";
+                    d.shape = "{d({e})r}";
+                }
                 break;
             }
             os << "}";
@@ -697,24 +705,29 @@ struct G
             d.tags = {t};
             std::string r = cfg.shadowing && rng.chance(0.4) ? "gi0" : "r";
             os << "void " << n << "(int &" << r << ") {\n  " << r << " = " << t << ";\n";
+            d.shape = "{e";
             if (rng.chance(0.5)) {
+                const bool dangling = rng.chance(0.35);  // "else if (..) stmt" without a further else: the grammar's unmatched-statement branch
+                d.shape += dangling ? "i({e}|i(e))" : "i({e}|e)";
                 // a tagged statement in each branch: a lost else branch takes its tag with it
                 const int ta = tag(), tb = tag();
                 d.tags.push_back(ta);
                 d.tags.push_back(tb);
-                os << "  if (" << r << " > 3) { " << r << " -= " << ta << "; } else " << r << " += " << tb << ";\n";
+                os << "  if (" << r << " > 3) { " << r << " -= " << ta << "; } else " << (dangling ? "if (" + r + " > 1) " : std::string{}) << r << " += " << tb << ";\n";
             }
             {
                 const int t2 = tag();
                 d.tags.push_back(t2);
                 os << "  " << r << " += " << t2 << ";\n";
             }
+            d.shape += "e}";
             os << "}";
             sc.vfuncs.push_back(n);
         } else {
             int t = tag();
             d.tags = {t};
             os << "bool " << n << "() {\n";
+            d.shape = "{r}";
             if (!sc.arrays.empty() && cfg.quantifiers) {
                 std::string q = binder();
                 os << "  return forall (" << q << " : int[0,3]) " << sc.arrays[0] << "[" << q << "] <= " << t << ";\n";
